@@ -17,4 +17,4 @@ for c in "$@"; do
   echo "$out" | grep -m2 "violation:" | cut -c1-300
 done
 cp -r $EVS/. /verif/evidence/; rm -rf $EVS
-git -C /repo worktree remove --force $WT
+git -C /repo worktree remove --force $WT; rm -rf /verif/build/alt-$(basename $WT)
